@@ -137,26 +137,41 @@ def case_sx(c):
     return [1, [A.dict_sx(d) for d in c["dicts"]], A.dict_sx(c["kw"]), ops]
 
 
+_HTML_POOL: dict = {}
+
+
+def _shared(v):
+    """HTML() values with equal text are ONE object throughout a run (an HTML object used for
+    several attributes / tags / calls): merging must not modify it"""
+    if isinstance(v, HTML):
+        return _HTML_POOL.setdefault(str(v), v)
+    return v
+
+
+def _pool_intact():
+    return [k for k, o in _HTML_POOL.items() if o.data != k]
+
+
 def impl(c):
-    ds = [A.build_dict(d) for d in c["dicts"]]
-    kw = A.build_dict(c["kw"])
+    ds = [{k: _shared(v) for k, v in A.build_dict(d).items()} for d in c["dicts"]]
+    kw = {k: _shared(v) for k, v in A.build_dict(c["kw"]).items()}
     r = safe_call(lambda: Tag("div", *ds, **kw))
     if r[0] != "ok":
         return ("err", r[1])
     t = r[1]
     for o in c["ops"]:
         if o[0] == "u":
-            dd = [A.build_dict(d) for d in o[1]]
-            kk = A.build_dict(o[2])
+            dd = [{k: _shared(v) for k, v in A.build_dict(d).items()} for d in o[1]]
+            kk = {k: _shared(v) for k, v in A.build_dict(o[2]).items()}
             safe_call(lambda: t.attrs.update(*dd, **kk))
         elif o[0] == "s":
             def f():
-                t.attrs[o[1]] = A.build_value(o[2])
+                t.attrs[o[1]] = _shared(A.build_value(o[2]))
             safe_call(f)
         elif o[0] == "c":
-            safe_call(lambda: t.add_class(A.build_value(o[1]), prepend=o[2]))
+            safe_call(lambda: t.add_class(_shared(A.build_value(o[1])), prepend=o[2]))
         else:
-            safe_call(lambda: t.add_style(A.build_value(o[1]), prepend=o[2]))
+            safe_call(lambda: t.add_style(_shared(A.build_value(o[1])), prepend=o[2]))
     out = t.get_html_string()
     assert out.endswith("></div>")
     return ("ok", out[len("<div"):-len("></div>")])
@@ -236,6 +251,12 @@ def run(ctx: Ctx) -> None:
     ]
 
     def oracle(c, out):
+        broken = _pool_intact()
+        if broken:
+            for k in broken:
+                _HTML_POOL[k] = HTML(k)
+            return ("an HTML() object given as an attribute value was modified by the library (it is shared with "
+                    f"other uses and no longer denotes its markup): {broken[0]!r}")
         want = expected(c)
         if want is None:
             return None if out[0] == "err" else "invalid attribute value type accepted"
